@@ -144,6 +144,9 @@ type Outcome struct {
 	// CaughtAsData is set when a failed try step's error was taken out as a value (`.err`):
 	// from then on an error object may legitimately live in variables and results
 	CaughtAsData bool
+	// RaisePath is the dynamic role path at which the most recent error that does not come
+	// from the simulated callee was raised (an unbound name, `XErr.new`, ...)
+	RaisePath string
 }
 
 // Model interprets a generated program.
@@ -156,6 +159,7 @@ type Model struct {
 	nfDepth      int
 	unsure       string
 	caughtAsData bool
+	raisePath    string
 	steps        int
 }
 
@@ -181,7 +185,7 @@ func Run(p *Program, plan map[int]PlanEntry) Outcome {
 	m := &Model{Plan: plan}
 	env := newMEnv(nil)
 	r := m.body(p.Stmts, env)
-	o := Outcome{Trace: m.trace, NoFault: m.nofault, Paths: m.paths, Val: r.v, Unsure: m.unsure, CaughtAsData: m.caughtAsData}
+	o := Outcome{Trace: m.trace, NoFault: m.nofault, Paths: m.paths, Val: r.v, Unsure: m.unsure, CaughtAsData: m.caughtAsData, RaisePath: m.raisePath}
 	if r.c == cRaise {
 		o.Raised = r.err
 	}
@@ -375,8 +379,10 @@ func (m *Model) eval(n *N, env *MEnv) res {
 	case KStr:
 		return norm(Val{T: "str", S: n.Str})
 	case KErrNew:
+		m.raisePath = strings.Join(m.path, ">")
 		return raise(&MErr{n.Str, n.Msg})
 	case KNat:
+		m.raisePath = strings.Join(m.path, ">")
 		return raise(&MErr{n.Str, n.Msg})
 	case KVar:
 		v, ok := env.get(n.Str)
@@ -494,6 +500,26 @@ func (m *Model) eval(n *N, env *MEnv) res {
 			return norm(vInt(l.v.I - r.v.I))
 		case "*":
 			return norm(vInt(l.v.I * r.v.I))
+		case "<":
+			return norm(vBool(l.v.I < r.v.I))
+		case "<=":
+			return norm(vBool(l.v.I <= r.v.I))
+		case ">":
+			return norm(vBool(l.v.I > r.v.I))
+		case ">=":
+			return norm(vBool(l.v.I >= r.v.I))
+		case "==":
+			return norm(vBool(l.v.I == r.v.I))
+		case "!=":
+			return norm(vBool(l.v.I != r.v.I))
+		case "<=>":
+			switch {
+			case l.v.I < r.v.I:
+				return norm(vInt(-1))
+			case l.v.I > r.v.I:
+				return norm(vInt(1))
+			}
+			return norm(vInt(0))
 		}
 		return m.giveUp("unknown infix " + n.Str)
 	case KPrefix:
@@ -658,6 +684,14 @@ func (m *Model) eval(n *N, env *MEnv) res {
 		return m.giveUp("unknown try accessor")
 	case KNative:
 		return m.nativeCall(n, env)
+	case KAssignE:
+		// `(name := e)` inside an expression: the value of e, bound in the current scope
+		r := m.ev("assign/rhs", n.A, env)
+		if r.c == cRaise {
+			return r
+		}
+		env.vars[n.Str] = r.v
+		return r
 	case KPropC:
 		return m.propCall(n, env)
 	case KLitC, KVarC:
